@@ -495,7 +495,7 @@ def multi_request(m):
 def correspondence(ctx):
     rng = random.Random(ctx.seed)
     quick = ctx.tier == 'quick'
-    n_cases = 150 if quick else 5000
+    n_cases = 150 if quick else 1500        # thorough: 10x quick (5000 cascades with the multi-distance programs exceed the harness time limit under load)
     n_sweep = 300 if quick else 6000
     cases = [gen_case(rng, i) for i in range(n_cases)]
     mrng = random.Random(ctx.seed + 23)
